@@ -111,6 +111,17 @@ func evalMutant(repo string, m mutant) mutantOutcome {
 		out.Reported = append(out.Reported, r)
 	}
 	sort.Strings(out.Reported)
+	if m.ExpectRule == "none" {
+		// behaviour-preserving variant: the check must stay silent
+		if len(out.Reported) == 0 {
+			out.Status = "caught"
+			out.Detail = "equivalent variant: silent as required"
+		} else {
+			out.Status = "missed"
+			out.Detail = "FALSE ALARM on a behaviour-preserving variant"
+		}
+		return out
+	}
 	out.Status = "missed"
 	for _, want := range strings.Split(m.ExpectRule, "|") {
 		if rules[want] {
